@@ -3,6 +3,7 @@
 -/
 import Lean.Data.Json
 import SqlairModel.Scan
+import SqlairModel.Spec.L3
 import Driver.Json
 import Driver.L2
 
@@ -39,11 +40,8 @@ def destJson (d : Dest) : Json :=
       Json.arr #[Json.arr (p.map fun (n : Nat) => (n : Json)).toArray, match v with | some s => Json.str s | none => Json.null]).toArray),
     ("keys", Json.arr (d.keys.map fun (k, v) => Json.arr #[Json.str k.toHex, Json.str v]).toArray)]
 
-/-- destinations are compared as sets of fields / keys -/
-def destEq (a b : Dest) : Bool :=
-  a.fields.all (fun p => p.2 == some unspecified || b.fields.contains p) &&
-  b.fields.all (fun p => a.fields.contains p || a.fields.contains (p.1, some unspecified)) &&
-  a.keys.all (fun p => b.keys.contains p) && b.keys.all (fun p => a.keys.contains p)
+-- `destEq` / `destsEq` / `preScanErr` / `holdsC06obs` are `SqlairModel/Spec/L3.lean`; soundness:
+-- `holdsC06obs_model` (`SqlairProofs/Props/L3Sound.lean`).
 
 def outputsOf (j : Json) : Except String (TypeTable × Except String (List Loc)) := do
   let segs ← (← getArr j "segs").toList.mapM parseOSeg
@@ -102,14 +100,10 @@ def handleL3 (j : Json) : Except String Json := do
     let oerr := (getBool oj "err").toOption.getD false
     let odests ← (optList oj "dests").toList.mapM parseDest
     let errAgree := merr.isSome == oerr
-    let destsAgree := mdests.length == odests.length && (mdests.zip odests).all fun (a, b) => destEq a b
-    -- C06 on the observation: an error raised before the scan (missing column, unused
-    -- destination, invalid argument) leaves every destination untouched
-    let preScanErr := match merr with
-      | some e => e != "conversion" && e != "row-too-short"
-      | none => false
-    let untouched := dests.length == odests.length && (dests.zip odests).all fun (a, b) => destEq a b
-    let c06 := errAgree && destsAgree && (!(oerr && preScanErr) || untouched)
+    let destsAgree := destsEq mdests odests
+    -- C06 on the observation (Spec/L3): agreement, and an error raised before the scan
+    -- (missing column, unused destination, invalid argument) leaves every destination untouched
+    let c06 := holdsC06obs dests (mdests, merr) oerr odests
     pure (Json.mkObj
       [("agree", Json.bool (errAgree && destsAgree)),
        ("affects", Json.arr #[Json.str "C06"]),
